@@ -444,3 +444,8 @@ def spec_deflate_raw(b):
 
 def spec_inflate_len_ok(stream, limit):
     return True
+
+
+def crypto_events(out, kind):
+    """Arguments of every primitive call of the given kind made during the call (symbolic evaluator only)."""
+    return []
